@@ -1,7 +1,9 @@
 """Generators of field specs, schema specs and candidate values (labelled by vf.model)."""
 from . import model
 from .common import weighted
-from .jsonx import DigestSpec, Opaque
+import ipaddress
+
+from .jsonx import DigestSpec, Opaque, StrSub
 
 REGEXES = [
     ("^[a-z]+$", ["abc", "z"], ["ab1", "", "A", "abc\n"]),
@@ -181,6 +183,8 @@ def _str_pool(rng, f):
             for k in (b - 1, b, b + 1):
                 if k >= 0:
                     out += ["a" * k, " " * 2 + "b" * k + " ", "Z" * k]
+    # text of a subclass of str (an enumeration member, a labelled string): every sixth candidate also comes in that form
+    out += [StrSub(x) for x in out[::6]]
     return out
 
 
@@ -205,7 +209,9 @@ BOOL_POOL = ["t", "true", "1", "on", "yes", "y", "f", "false", "0", "off", "no",
              True, False, "\u0131", "ye\u017f", "fal\u017fe", "o\ufb00", "\u212a", "YE\u017f", "tr\u016be", "\uff54rue", "of\ufb00"]
 IPV4_POOL = ["1.2.3.4", "0.0.0.0", "255.255.255.255", "256.1.1.1", "1.2.3", "1.2.3.4.5", "a.b.c.d", "1.2.3.4 ", " 1.2.3.4",
              "1.2.3.4\n", "", "01.2.3.4", "1.2.3.-4", "\uff11.2.3.4", "1..3.4", "127.0.0.1", "1.2.3.4/32", "10.0.0.1",
-             "192.168.1.255", "1.2.3.04", "1.2.3.4.", ".1.2.3.4", "0x7f.0.0.1", "1.2.3.256"]
+             "192.168.1.255", "1.2.3.04", "1.2.3.4.", ".1.2.3.4", "0x7f.0.0.1", "1.2.3.256",
+             # address objects are not text: the field takes text only
+             ipaddress.IPv4Address("192.168.100.200"), ipaddress.IPv4Address("10.0.0.1"), StrSub("10.0.0.1"), StrSub("1.2.3.256")]
 NET_POOL = ["10.0.0.0/8", "10.0.0.0/255.0.0.0", "10.0.0.1/8", "0.0.0.0/0", "1.2.3.4", "1.2.3.4/32", "1.2.3.0/24",
             "1.2.3.0/33", "1.2.3.0/-1", "1.2.3.0/", "1.2.3.0/24/1", "128.0.0.0/1", "192.168.0.0/31", "192.168.0.0/16",
             "10.0.0.0/0.255.255.255", "172.16.0.0/12", "1.2.3.4/31", "255.255.255.255/32", "abc", "", "10.0.0.0/8 ",
